@@ -488,7 +488,9 @@ impl G1 {
         }
 
         let sign = bytes[0];
-        debug_assert!(sign == 2 || sign == 3);
+        if sign != 2 && sign != 3 {
+            return Err(CurveError::InvalidEncoding);
+        }
         // coordinates must be canonical (below q): no reduction here
         let x = fields::Fq::from_slice(&bytes[1..])
             .map(Fq)
@@ -675,7 +677,9 @@ impl G2 {
             return Err(CurveError::InvalidEncoding);
         }
         let sign = bytes[0];
-        debug_assert!(sign == 2 || sign == 3);
+        if sign != 2 && sign != 3 {
+            return Err(CurveError::InvalidEncoding);
+        }
         let x = Fq2::from_slice(&bytes[1..]).ok_or(CurveError::InvalidEncoding)?;
         let y_squared = (x * x * x) + Self::b();
         let mut y = y_squared.sqrt().ok_or(CurveError::NotMember)?;
